@@ -44,9 +44,16 @@ pub fn tool_error(msg: &str) -> ! {
     std::process::exit(2)
 }
 
+thread_local! {
+    static CATCH_DEPTH: std::cell::Cell<u32> = const { std::cell::Cell::new(0) };
+}
+
 /// Runs `f`, turning a panic of the code under test into data.
 pub fn catch<T>(f: impl FnOnce() -> T) -> Result<T, String> {
-    catch_unwind(AssertUnwindSafe(f)).map_err(|e| {
+    CATCH_DEPTH.with(|d| d.set(d.get() + 1));
+    let r = catch_unwind(AssertUnwindSafe(f));
+    CATCH_DEPTH.with(|d| d.set(d.get().saturating_sub(1)));
+    r.map_err(|e| {
         if let Some(s) = e.downcast_ref::<&str>() {
             s.to_string()
         } else if let Some(s) = e.downcast_ref::<String>() {
@@ -62,7 +69,12 @@ pub fn quiet_panics() {
     if std::env::var("VH_BACKTRACE").is_ok() {
         return;
     }
-    std::panic::set_hook(Box::new(|_| {}));
+    // a panic outside `catch` ends the harness (exit code 101): say where it came from, the driver reports it
+    std::panic::set_hook(Box::new(|info| {
+        if CATCH_DEPTH.with(|d| d.get()) == 0 && std::thread::current().name() == Some("main") {
+            eprintln!("UNCAUGHT-PANIC: {info}");
+        }
+    }));
 }
 
 /// `--key value` lookup in argv.
